@@ -373,6 +373,11 @@ func LoadFromViper(inputViper *viper.Viper) (Config, error) {
 func loadFromViper(v *viper.Viper, home string) (Config, error) {
 	cfg := DefaultConfig
 	cfg.RootDir = home
+	if DefaultConfig.Instrumentation != nil {
+		// DefaultConfig holds a pointer: decode into a copy so that a load never changes the defaults
+		instrumentation := *DefaultConfig.Instrumentation
+		cfg.Instrumentation = &instrumentation
+	}
 
 	decoder, err := mapstructure.NewDecoder(&mapstructure.DecoderConfig{
 		DecodeHook: mapstructure.ComposeDecodeHookFunc(
